@@ -17,12 +17,24 @@ def server(pid, what, ref):
              'with only this property\'s guards enforced; a rejection is re-executed before it is reported.',
         ref=ref, note=SERVER_NOTE)
 
+def client(pid, what, ref):
+    return dict(
+        technique='TLA+ model checking (ClientImpl, TLC exhaustive) + model-based replay of TLC behaviours into the real Client against a scripted peer under gate control + TLC trace validation against ClientContract with Enforce={%s}' % pid,
+        category='model_checking',
+        text=what + ' Design level: TLC checks the invariants/action properties of spec/ClientImpl.tla exhaustively for the bounded configuration(s) named in the evidence. '
+             'Code level: behaviours simulated by TLC from ClientImpl (plus directed histories) are replayed into the real jrpc2.Client inside a testing/synctest bubble '
+             '(caller, reader, delivery, watcher and callback goroutines released one critical section at a time); every recorded trace is validated by TLC against spec/ClientContract.tla '
+             'with only this property\'s guards enforced; a rejection is re-executed before it is reported.',
+        ref=ref, note=SERVER_NOTE.replace('Handlers are assumed to return when the harness releases them.', 'The peer is assumed to close its end after the client closes (as the property states).'))
+
 CHECKS = {
  'C01': server('C01', 'Exactly one correlated response per call, none per notification, batch shape/order, nothing for nothing-to-report.', 'DESIGN.md §4 C01'),
  'C03': server('C03', 'Notification barrier and its converse (running calls do not hold back later requests).', 'DESIGN.md §4 C03'),
  'C06': server('C06', 'Concurrency limit, work conservation at every quiescent point, cancelled waiters never run.', 'DESIGN.md §4 C06'),
  'C07': server('C07', 'Cancellation hits only its target; ids reserved exactly while in flight.', 'DESIGN.md §4 C07'),
  'C08': server('C08', 'Crash-free, clean, restartable shutdown for Stop / peer close / Recv error / Send error at every position.', 'DESIGN.md §4 C08'),
+ 'C04': client('C04', 'Replies are matched to requests by id for every ordering, grouping, duplication and pollution of the reply stream; ids unique; Batch order.', 'DESIGN.md §4 C04'),
+ 'C05': client('C05', 'Every operation completes exactly once under reply / context end / Close / EOF / Recv error / Send error / undecodable input; hooks exactly once; nothing transmitted after stop.', 'DESIGN.md §4 C05'),
  'C09': server('C09', 'Server push: Notify/Callback transmission, reply matching, late replies discarded, context end, stop.', 'DESIGN.md §4 C09'),
 }
 REASONS = {}
